@@ -2,6 +2,7 @@ package checks
 
 import (
 	"bytes"
+	"context"
 	"crypto/hmac"
 	"crypto/sha256"
 	"crypto/sha512"
@@ -602,6 +603,65 @@ func runC14(tier string, seed int64) *Outcome {
 				}
 				sort.Strings(nj)
 				res.Sample = map[string]any{"secretLen": len(secret), "profiling": profiling, "routes": env.routes, "credentialClasses": len(classes), "borderlineOutcomesNotJudged": nj}
+				// the answer to a request without valid token does not depend on the state of the runner: while a graceful
+				// shutdown waits for the running job and after the shutdown has returned it is 401 as before
+				func() {
+					sweep := func(phase string) {
+						for _, rt := range env.routes {
+							if strings.HasPrefix(rt[1], "/debug") {
+								continue
+							}
+							k := 0
+							for _, cl := range classes {
+								if !cl.judged {
+									continue
+								}
+								k++
+								if k > 8 {
+									break
+								}
+								for _, transport := range []string{"header", "cookie"} {
+									req := env.request(rt[0], rt[1])
+									switch {
+									case transport == "header" && cl.raw != "":
+										req.Header.Set("Authorization", cl.raw)
+									case transport == "header" && cl.token != "":
+										req.Header.Set("Authorization", "Bearer "+cl.token)
+									case transport == "cookie":
+										req.AddCookie(&http.Cookie{Name: "jwt", Value: cl.token})
+									}
+									rec := httptest.NewRecorder()
+									env.h.ServeHTTP(rec, req)
+									res.Evaluations++
+									if rec.Code != 401 {
+										find("C14:request-without-valid-token-not-401", "%s %s with credential %q via %s answered %d %s (before the shutdown such requests are answered 401)", rt[0], rt[1], cl.name, transport, rec.Code, phase)
+									}
+								}
+							}
+						}
+						res.Situations = append(res.Situations, fmt.Sprintf("invalid credentials %s profiling=%v", phase, profiling))
+					}
+					sd := make(chan struct{})
+					go func() { defer close(sd); _ = env.sys.Shutdown(9, context.Background(), "graceful (C14)") }()
+					for i := 0; i < 4000; i++ {
+						if _, cls := env.sys.Schedule(8, "no-such-pipeline-probe", nil, "probe"); cls == "shutting-down" {
+							break
+						}
+						time.Sleep(100 * time.Microsecond)
+					}
+					before := env.digest()
+					sweep("while a graceful shutdown is waiting for the running job")
+					if d := env.digest(); !reflect.DeepEqual(d, before) {
+						find("C14:rejected-request-had-an-effect", "requests with invalid credentials during a graceful shutdown changed the runner state: %v -> %v", before.Jobs, d.Jobs)
+					}
+					drv.DrainAll(env.sys)
+					select {
+					case <-sd:
+						sweep("after Shutdown has returned")
+					case <-time.After(30 * time.Second):
+						res.Inconclusive = "watchdog: graceful shutdown of the C14 environment did not return"
+					}
+				}()
 				// let the jobs end
 				if profiling {
 					prevValid, prevSecret = env.valid, secret // (the next instance has another secret)
